@@ -1,2 +1,30 @@
-(* C04 - theorems follow in this commit series *)
-From TW Require Import Bytes.
+(* C04 - variables are block scoped, type stable, and 'loop' is reserved. *)
+From TW Require Import Bytes Values Ast Eval Scopes ScopesEval.
+
+(* evaluating any statement changes at most the innermost frame of the scope chain:
+   an assignment inside a nested block never changes what the enclosing blocks see *)
+Theorem C04_statement_touches_innermost_scope_only cx f en s v en' :
+  en <> [] -> eval_stmt cx f en s = Ok (v, en') -> tl en' = tl en.
+Proof. exact (stmt_changes_innermost_frame_only cx f en s v en'). Qed.
+Print Assumptions C04_statement_touches_innermost_scope_only.
+
+(* a whole @if ... @elseif ... @else ... @end leaves the scope chain exactly as it was *)
+Theorem C04_if_leaves_scope_unchanged cx f en ln c thn alts alt v en' :
+  en <> [] -> eval_stmt cx f en (SIf ln c thn alts alt) = Ok (v, en') -> en' = en.
+Proof. exact (if_leaves_scope_unchanged cx f en ln c thn alts alt v en'). Qed.
+Print Assumptions C04_if_leaves_scope_unchanged.
+
+(* the type of every visible name is stable under any sequence of successful assignments *)
+Theorem C04_types_stable ops e e' k old :
+  e <> [] -> env_get e k = Some old -> set_all e ops = Some e' ->
+  exists now, env_get e' k = Some now /\ same_type old now = true.
+Proof. exact (types_stable_under_assignments ops e e' k old). Qed.
+Print Assumptions C04_types_stable.
+
+Theorem C04_loop_reserved e v ops e' : set_all e ((str_loop, v) :: ops) = Some e' -> False.
+Proof. exact (loop_never_assignable e v ops e'). Qed.
+Print Assumptions C04_loop_reserved.
+
+Theorem C04_assignment_binds e k v e' : e <> [] -> env_set e k v = inl e' -> env_get e' k = Some v.
+Proof. exact (env_set_get_same e k v e'). Qed.
+Print Assumptions C04_assignment_binds.
